@@ -172,8 +172,11 @@ static void uni_make(vf::Rng& r, int want, std::vector<std::string>& u, std::str
 	}
 	case 3: {
 		s.insert("");
+		// a few keys start with (or consist of) bytes >= 0x80: key order is the order of strcmp, i.e. of unsigned bytes
+		static const char* hi[] = {"\xc3\xa9t\xc3\xa9", "\x80", "\xff\xfe", "\xe2\x82\xac-euro-key-long-enough-for-the-heap", "z\xc3\xa9", "\x7f", "\xc3\xa9"};
+		for (int i = 0; i < 7 && (int)s.size() < want; i++) if (r.chance(0.7)) s.insert(hi[i]);
 		for (int i = 0; (int)s.size() < want; i++) s.insert(vf::fmt(i % 3 == 0 ? "k%d" : i % 3 == 1 ? "%d" : "key-number-%d-long-enough-for-the-heap", i));
-		about = "mixed short/long strings incl. the empty string";
+		about = "mixed short/long strings incl. the empty string and keys starting with bytes >= 0x80";
 		break;
 	}
 	default: {
